@@ -402,6 +402,13 @@ def main_wrapper(fn):
     except subprocess.TimeoutExpired as e:
         print(f"TOOL-ERROR: timeout {e}")
         sys.exit(2)
+    except SystemExit:
+        raise
+    except BaseException as e:       # a bug of the machinery is a tool error, never a verdict
+        import traceback
+        traceback.print_exc()
+        print(f"TOOL-ERROR: {type(e).__name__}: {e}")
+        sys.exit(2)
 
 
 # ------------------------------------------------------------------------------------------------ crash-contained driver runs
